@@ -65,7 +65,7 @@ func c14Child(run *evid.Run, batch, nb int, j *Journal) {
 	}
 }
 
-var c14Kinds = []string{"live-append", "live-merge", "cross", "ring", "cross", "live-append", "cross-4party", "stalled-reader", "ladder", "after-refusals", "hub", "bounded-source"}
+var c14Kinds = []string{"live-append", "live-merge", "cross", "ring", "cross", "live-append", "cross-4party", "stalled-reader", "ladder", "after-refusals", "hub", "bounded-source", "busy-source"}
 var c14Regimes = []string{"free", "noise", "park-source-heads-read", "park-source-entries-read", "park-holding-own-lock"}
 
 // c14FourParty: two logs merge each other in loops while a separate goroutine appends to each of them. With two
@@ -340,6 +340,10 @@ func c14Scenario(run *evid.Run, i int, j *Journal) {
 	}
 	if kind == "bounded-source" {
 		c14BoundedSource(run, i, j)
+		return
+	}
+	if kind == "busy-source" {
+		c14BusySource(run, i, j)
 		return
 	}
 	regime := c14Regimes[(i/len(c14Kinds))%len(c14Regimes)]
@@ -851,6 +855,116 @@ func c14Hub(run *evid.Run, i int, j *Journal) {
 		}
 	}
 	run.NonTrivial("hub/" + model.DigestSeq(tr))
+}
+
+// busySource is handed to Join in place of the source log: after EVERY read Join makes of the source's heads or
+// entries, one append to the source runs to completion (the adversarial schedule "the source is written to between
+// any two reads of the merge"). It stops appending after `limit` reads, so that even a merge that waits for the
+// source to hold still comes back - and is reported.
+type busySource struct {
+	*ipfslog.IPFSLog
+	w       *hx.World
+	reads   int64
+	appends int64
+	limit   int64
+}
+
+func (b *busySource) afterRead() {
+	if n := atomic.AddInt64(&b.reads, 1); n <= b.limit {
+		if _, err := b.IPFSLog.Append(b.w.Ctx, []byte(fmt.Sprintf("busy-%d", n)), nil); err == nil {
+			atomic.AddInt64(&b.appends, 1)
+		}
+	}
+}
+
+func (b *busySource) RawHeads() iface.IPFSLogOrderedEntries {
+	r := b.IPFSLog.RawHeads()
+	b.afterRead()
+	return r
+}
+
+func (b *busySource) Heads() iface.IPFSLogOrderedEntries {
+	r := b.IPFSLog.Heads()
+	b.afterRead()
+	return r
+}
+
+func (b *busySource) GetEntries() iface.IPFSLogOrderedEntries {
+	r := b.IPFSLog.GetEntries()
+	b.afterRead()
+	return r
+}
+
+// c14BusySource: termination decided on LOGICAL steps. A merge needs a bounded number of looks at its source however
+// busy the source is; one that starts over whenever the source moved never returns while the source keeps moving.
+func c14BusySource(run *evid.Run, i int, j *Journal) {
+	rng := rand.New(rand.NewSource(run.Seed*1301 + int64(i)))
+	w := hx.NewWorld(run.Seed, 3, fmt.Sprintf("c14y-%d-%d", run.Seed, i), "hash", []string{"cbor", "link"}[(i/len(c14Kinds))%2])
+	label := fmt.Sprintf("#%d busy-source: one append to the source completes after every read the merge makes of it", i)
+	j.Log(map[string]any{"scenario": label})
+	src, dst, third := w.NewLog(0), w.NewLog(1), w.NewLog(2)
+	for k := 0; k < 2+rng.Intn(6); k++ {
+		_, _ = src.Append(w.Ctx, []byte(fmt.Sprintf("s%d", k)), nil)
+	}
+	for k := 0; k < rng.Intn(4); k++ {
+		_, _ = dst.Append(w.Ctx, []byte(fmt.Sprintf("d%d", k)), nil)
+	}
+	if rng.Intn(2) == 0 {
+		_, _ = third.Append(w.Ctx, []byte("t0"), nil)
+		_, _ = src.Join(third, -1)
+	}
+	const limit = 400
+	bs := &busySource{IPFSLog: src, w: w, limit: limit}
+	atCall := hx.Observe(src)
+	dstBefore := hx.Observe(dst)
+	wit := func() map[string]any {
+		return map[string]any{"scenario": label, "seed": run.Seed, "reads_of_the_source_by_one_merge": atomic.LoadInt64(&bs.reads), "appends_to_the_source_meanwhile": atomic.LoadInt64(&bs.appends)}
+	}
+	done := make(chan error, 1)
+	go func() { _, err := dst.Join(bs, -1); done <- err }()
+	run.Eval(1)
+	run.Count("scenarios_busy-source", 1)
+	var err error
+	select {
+	case err = <-done:
+	case <-time.After(5 * time.Minute):
+		run.Inconclusive("busy-source merge did not return: " + label)
+		return
+	}
+	reads := atomic.LoadInt64(&bs.reads)
+	if reads > limit {
+		run.Violate("C14/does-not-terminate", det("kind", "busy-source"), wit(), "one merge looked at its source %d times, an append to the source completing after every look: it only came back because the source stopped after %d appends - against a source that keeps being written to it never returns", reads, limit)
+		return
+	}
+	if err != nil {
+		run.Violate("C14/join-error", det("kind", "busy-source"), wit(), "merge failed: %v", err)
+		return
+	}
+	atReturn := hx.Observe(src)
+	got := hx.Observe(dst)
+	// the union with a state the source had between call and return: at least what it held at the call, at most what it
+	// holds at the return, heads = unreferenced entries, causally closed
+	for k := range atCall.Set {
+		if _, ok := got.Set[k]; !ok {
+			run.Violate("C14/not-a-snapshot", det("kind", "busy-source"), wit(), "the merge result lacks entry %s that the source held when the merge was called", hx.Short(k))
+			break
+		}
+	}
+	for k := range got.Set {
+		_, a := atReturn.Set[k]
+		_, b := dstBefore.Set[k]
+		if !a && !b {
+			run.Violate("C14/not-a-snapshot", det("kind", "busy-source"), wit(), "the merge result holds entry %s that neither log held", hx.Short(k))
+			break
+		}
+	}
+	if !model.EqualAsSets(got.Heads, model.Heads(got.Set)) {
+		run.Violate("C14/heads", det("kind", "busy-source"), wit(), "heads %v, unreferenced entries %v", hx.SortedShorts(got.Heads), hx.Shorts(model.Heads(got.Set)))
+	}
+	if !model.Closed(got.Set) {
+		run.Violate("C14/not-closed", det("kind", "busy-source"), wit(), "the merge result is not causally closed")
+	}
+	run.NonTrivial(fmt.Sprintf("busy-source/%d", reads))
 }
 
 // c14BoundedSource: the SOURCE keeps a constant size (it is refreshed by size-bounded merges, like a feed that keeps
